@@ -26,8 +26,8 @@ RECURSIVE BfsTree(_,_,_)
 BfsTree(R, frontier, par) ==
    IF frontier = {} THEN par ELSE
    LET new == {w \in {a[2] : a \in R} : w \notin DOMAIN par /\ \E v \in frontier : <<v, w>> \in R}
-       par2 == [w \in (DOMAIN par) \cup new |-> IF w \in DOMAIN par THEN par[w]
-                                                  ELSE CHOOSE v \in frontier : <<v, w>> \in R]
+       par2 == TLCEval([w \in (DOMAIN par) \cup new |-> IF w \in DOMAIN par THEN par[w]
+                                                  ELSE CHOOSE v \in frontier : <<v, w>> \in R])
    IN BfsTree(R, new, par2)
 \* push one unit along the tree path from t back to s
 RECURSIVE Toggle(_,_,_,_)
